@@ -179,6 +179,41 @@ func c06RRBody(nThreads, perThread int, table string) func(x *vsched.X) {
 	}
 }
 
+// the random strategy: overlapping lookups share whatever source the picker draws from
+func c06RndBody(nThreads, perThread int, table string) func(x *vsched.X) {
+	if vsched.Free() {
+		perThread = 300 // the free-running -race pass needs real overlap, not many schedules
+	}
+	return func(x *vsched.X) {
+		tbl := mustTable(table)
+		gc := NewGlobCache(10)
+		bad := make([]string, nThreads)
+		for i := 0; i < nThreads; i++ {
+			i := i
+			x.Go(fmt.Sprintf("req%d", i), func() {
+				defer func() {
+					if r := recover(); r != nil {
+						bad[i] = fmt.Sprint("panic: ", r)
+					}
+				}()
+				for k := 0; k < perThread; k++ {
+					tg := tbl.Lookup(vfReq("", "/p", false), "", rndPicker, prefixMatcher, gc, false)
+					if tg == nil || tg.Service != "s" {
+						bad[i] = fmt.Sprint("lookup returned ", tg)
+					}
+				}
+			})
+		}
+		x.Run()
+		for i, b := range bad {
+			if b != "" {
+				x.Fail("random-pick-failed-under-concurrency", map[string]interface{}{"thread": i, "what": b})
+				return
+			}
+		}
+	}
+}
+
 // ---------- C06 scenario 3: glob cache ----------
 
 func c06GlobBody(size int, prefill []string, threads [][]string) func(x *vsched.X) {
@@ -353,6 +388,7 @@ func TestVerifC06Sched(t *testing.T) {
 		{"rr-2x2-equal", 2, 3, c06RRBody(2, 2, eq2)},
 		{"rr-3x2-equal3", 1, 2, c06RRBody(3, 2, eq3)},
 		{"rr-2x2-weighted", 2, 3, c06RRBody(2, 2, w2)},
+		{"rnd-3x2-equal3", 1, 2, c06RndBody(3, 2, eq3)},
 		{"glob-size2-fill", 2, 3, c06GlobBody(2, []string{"*.a.com"}, [][]string{{"*.b.com"}, {"*.c.com"}})},
 		{"glob-size1-evict", 2, 3, c06GlobBody(1, []string{"*.a.com"}, [][]string{{"*.b.com", "*.a.com"}, {"*.c.com"}})},
 		{"glob-size2-evict3", 1, 2, c06GlobBody(2, []string{"*.a.com", "*.b.com"}, [][]string{{"*.c.com"}, {"*.d.com"}, {"*.a.com"}})},
